@@ -344,6 +344,7 @@ pub fn pair_features(env: &Env, a: &D, b: &D) -> Vec<&'static str> {
     let mut uninhabited_index = false;
     let mut inter_with_index = false;
     let mut uninhabited_inter = false;
+    let mut inter_and_record_same_named = false;
     let mut empty_object_in_union = false;
     let mut optional_sibling_in_union = false;
     let mut union_of_maps = false;
@@ -417,6 +418,43 @@ pub fn pair_features(env: &Env, a: &D, b: &D) -> Vec<&'static str> {
                     let objects = fm.iter().filter(|m| matches!(m, D::Object { .. } | D::Inter(_))).count();
                     if empties >= 1 && objects >= 2 {
                         empty_object_in_union = true;
+                    }
+                    // an intersection with a named member next to a record whose value type is (an alias of) that
+                    // named type: such a union is not even assignable to itself
+                    {
+                        fn named_in(env: &Env, d: &D, out: &mut Vec<usize>, depth: usize) {
+                            // named types mentioned by d, aliases followed to their target
+                            d.any_node(&mut |n| {
+                                if let D::Ref(i) = n {
+                                    let mut j = *i;
+                                    let mut hops = 0;
+                                    while let D::Ref(k) = env.get(j) {
+                                        j = *k;
+                                        hops += 1;
+                                        if hops > 6 {
+                                            break;
+                                        }
+                                    }
+                                    if !out.contains(&j) {
+                                        out.push(j);
+                                    }
+                                }
+                                false
+                            });
+                            let _ = depth;
+                        }
+                        let mut in_inter: Vec<usize> = vec![];
+                        let mut in_record_value: Vec<usize> = vec![];
+                        for m in &fm {
+                            match m {
+                                D::Inter(ims) => ims.iter().filter(|x| matches!(x, D::Ref(_))).for_each(|x| named_in(env, x, &mut in_inter, 0)),
+                                D::Object { index: Some(ix), .. } => named_in(env, ix, &mut in_record_value, 0),
+                                _ => {}
+                            }
+                        }
+                        if in_inter.iter().any(|i| in_record_value.contains(i)) {
+                            inter_and_record_same_named = true;
+                        }
                     }
                     // more generally: a member whose required keys are a proper part of a sibling's keys
                     // ({a: "a"} next to {a: "a" | "b"; b: boolean}; {k: T; a?: null} next to {k: T; b: string}) absorbs
@@ -507,6 +545,9 @@ pub fn pair_features(env: &Env, a: &D, b: &D) -> Vec<&'static str> {
     }
     if inter_with_index {
         out.push("intersection_with_index_signature");
+    }
+    if inter_and_record_same_named {
+        out.push("intersection_next_to_record_over_same_named_type");
     }
     if empty_object_in_union {
         out.push("empty_object_type_in_union");
@@ -1048,6 +1089,62 @@ pub fn indexed_expectation(env: &Env, x: &D, y: &D) -> Option<D> {
     }
 }
 
+/// x & y pushed inwards through lists, records and same-key properties (an approximation used only to find out which
+/// root-cause families are present inside the result of an intersection)
+pub fn structural_meet(env: &Env, x: &D, y: &D, fuel: usize) -> D {
+    if fuel == 0 {
+        return D::Inter(vec![x.clone(), y.clone()]);
+    }
+    let r = Ref::new(env, Mode::Open);
+    match (r.head(x), r.head(y)) {
+        (D::Array(a), D::Array(b)) => D::Array(Box::new(structural_meet(env, a, b, fuel - 1))),
+        (D::Tuple(pa, ra), D::Tuple(pb, rb)) => {
+            let n = pa.len().max(pb.len());
+            let at = |p: &Vec<D>, rest: &Option<Box<D>>, i: usize| -> Option<D> { p.get(i).cloned().or_else(|| rest.as_ref().map(|r| (**r).clone())) };
+            let mut prefix = vec![];
+            for i in 0..n {
+                match (at(pa, ra, i), at(pb, rb, i)) {
+                    (Some(a), Some(b)) => prefix.push(structural_meet(env, &a, &b, fuel - 1)),
+                    _ => return D::Never,
+                }
+            }
+            let rest = match (ra, rb) {
+                (Some(a), Some(b)) => Some(Box::new(structural_meet(env, a, b, fuel - 1))),
+                _ => None,
+            };
+            D::Tuple(prefix, rest)
+        }
+        (D::Array(a), D::Tuple(pb, rb)) | (D::Tuple(pb, rb), D::Array(a)) => D::Tuple(
+            pb.iter().map(|b| structural_meet(env, a, b, fuel - 1)).collect(),
+            rb.as_ref().map(|b| Box::new(structural_meet(env, a, b, fuel - 1))),
+        ),
+        (D::Object { props: pa, index: ia }, D::Object { props: pb, index: ib }) => {
+            let mut props: Vec<Prop> = vec![];
+            for p in pa {
+                match pb.iter().find(|q| q.key == p.key) {
+                    Some(q) => props.push(Prop { key: p.key.clone(), ty: structural_meet(env, &p.ty, &q.ty, fuel - 1), optional: p.optional && q.optional }),
+                    None => props.push(p.clone()),
+                }
+            }
+            for q in pb {
+                if !pa.iter().any(|p| p.key == q.key) {
+                    props.push(q.clone());
+                }
+            }
+            let index = match (ia, ib) {
+                (Some(a), Some(b)) => Some(Box::new(structural_meet(env, a, b, fuel - 1))),
+                (Some(a), None) | (None, Some(a)) => Some(a.clone()),
+                _ => None,
+            };
+            D::Object { props, index }
+        }
+        (D::Union(ms), _) => D::Union(ms.iter().map(|m| structural_meet(env, m, y, fuel - 1)).collect()),
+        (_, D::Union(ms)) => D::Union(ms.iter().map(|m| structural_meet(env, x, m, fuel - 1)).collect()),
+        (a, b) if a == b => a.clone(),
+        _ => D::Inter(vec![x.clone(), y.clone()]),
+    }
+}
+
 pub struct C07;
 impl Check for C07 {
     fn id(&self) -> &'static str {
@@ -1220,6 +1317,14 @@ impl Check for C07 {
         if case.op == "intersect" {
             // the operation itself builds the intersection: look at it in merged form as well
             for f in pair_features(&case.env, &D::Inter(vec![case.x.clone(), case.y.clone()]), &D::Never) {
+                if !features.contains(&f) {
+                    features.push(f);
+                }
+            }
+            // ... and position by position (lists) / value type by value type (records): an uninhabited index value
+            // may only come into being inside the result
+            let met = structural_meet(&case.env, &case.x, &case.y, 6);
+            for f in pair_features(&case.env, &met, &D::Never) {
                 if !features.contains(&f) {
                     features.push(f);
                 }
